@@ -21,6 +21,9 @@ type Case struct {
 	H     hgen.History `json:"h"`
 	Batch []int        `json:"batch,omitempty"`
 	Every int          `json:"every,omitempty"` // bulk histories: read the whole RIB back every n-th step only
+	// LateVRF (L1) > 0: VRF-B is created at runtime immediately before this step; the history
+	// does not mention it earlier
+	LateVRF int `json:"latevrf,omitempty"`
 }
 
 func setup() {
@@ -35,7 +38,7 @@ func runCase(c Case) *ev.Verdict {
 	if c.Level == "L2" {
 		v, tr = l2.RunHistory(c.H, l2.Opts{P: "C03", Trusted: true, Batch: c.Batch})
 	} else {
-		v, tr = l1.Run(c.H, l1.Opts{P: "C03", Trusted: true, ObserveEvery: c.Every})
+		v, tr = l1.Run(c.H, l1.Opts{P: "C03", Trusted: true, ObserveEvery: c.Every, LateVRF: c.LateVRF})
 	}
 	if tr.Retargets > 0 {
 		v.Class("retarget")
@@ -260,7 +263,15 @@ func TestCampaign(t *testing.T) {
 			var wild string
 			h, wild = hgen.MaybeRename(rt, h, 30)
 			c := Case{Level: "L1", H: h}
-			if rapid.IntRange(0, 5).Draw(rt, "l2?") == 0 {
+			if wild == "" && rapid.IntRange(0, 3).Draw(rt, "late-vrf?") == 0 && len(h.Steps) > len(epi)+3 {
+				// the last instance is created while the RIB is in use (after some references and
+				// possibly a flush exist), and is then referred to across instances
+				k := rapid.IntRange(2, len(h.Steps)-len(epi)-1).Draw(rt, "late-vrf")
+				c.H, c.LateVRF = hgen.WithoutEarly(h, hgen.NIs[len(hgen.NIs)-1], k)
+				if c.LateVRF == 0 {
+					c.LateVRF = 1
+				}
+			} else if rapid.IntRange(0, 5).Draw(rt, "l2?") == 0 {
 				c.Level = "L2"
 				c.Batch = []int{rapid.IntRange(1, 6).Draw(rt, "batch")}
 			}
